@@ -424,6 +424,8 @@ func runHistory(c *core.Ctx, idx int, nn bool) {
 	pp := paramPairs[r.Intn(len(paramPairs))]
 	if r.Chance(0.4) {
 		pp = paramPairs[r.Intn(6)] // small fan-outs make deep trees
+	} else if r.Chance(0.1) {
+		pp = [][2]int{{25, 50}, {2, 64}, {32, 64}, {3, 100}}[r.Intn(4)] // large fan-outs (route uses 25/50)
 	}
 	h := &hist{c: c, r: r, min: pp[0], max: pp[1], float: r.Chance(0.3), hash: core.NewHasher(), nn: nn}
 	h.tree = rtree.NewTree(h.min, h.max)
